@@ -111,7 +111,14 @@ class Parser:
             # a cell is translated inside the translation of the cell that refers to it
             raise E2PyclParserException('The formulas or the chain of cells they depend on are nested too deeply')
 
-        self._translation = context.build_class()
+        translation = context.build_class()
+        try:
+            # the class must be loadable: what Python refuses (brackets nested too deeply) is refused here
+            compile(translation, '<translation>', 'exec')
+        except (SyntaxError, ValueError, RecursionError, MemoryError) as error:
+            raise E2PyclParserException(f'The translation is not valid Python code: {error}')
+
+        self._translation = translation
 
         self._excel_file_path_has_been_changed = False
         self._entrypoint_cell_has_been_changed = False
